@@ -21,6 +21,27 @@ CHECKS = {
     "C05": ("model_checking", "E1 bp2smt BMC",
             "Bounded model checking as C03 against the four-row set/reset truth table with the declared priority, inputs ranging over all int32 values (not only threshold boundaries).",
             "SMT bounded model checking (unrolled ticks, symbolic input histories)"),
+    "C06": ("translation_validation", "E1 bp2smt",
+            "z3 decides for all input valuations and all non-negative contents of entities read through .output that the circuit condition of the entity found at the user tile, evaluated on the networks actually wired to it, is true exactly when the assigned expression is positive; a missing circuit condition is a closed-form violation.",
+            "SMT (z3 QF_UFBV) translation validation of entity circuit conditions, all inputs and contents"),
+    "C10": ("translation_validation", "E1 bp2smt twins",
+            "Two blueprints of the same source (optimised / --no-optimize) produced by the real compiler are encoded side by side over shared input variables; z3 decides equality of every common named output and entity condition for all inputs, and of the end-of-step values for all K-step histories of stateful programs.",
+            "SMT equivalence checking of two emitted blueprints (all inputs / bounded histories)"),
+    "C12": ("translation_validation", "E1 bp2smt twins",
+            "build(P||Q) for order-preserving interleavings is compared with build(P) and build(Q) over disjoint input variables: z3 decides that P's outputs and entity conditions are the same functions of P's inputs alone (hence independent of every input of Q), and vice versa.",
+            "SMT equivalence / non-interference of emitted blueprints, all inputs of P and Q"),
+    "C13": ("translation_validation", "E1 bp2smt twins + closed clause",
+            "Closed clause evaluated on the emitted blueprint (allocated signal of every untyped value vs the signals written in the source) plus z3 equivalence of the program with its explicitly renamed twin for all inputs.",
+            "SMT equivalence with the renamed twin + closed allocation check"),
+    "C15": ("translation_validation", "E1 bp2smt",
+            "The blueprint of a program with function calls is compared, for all inputs (K-step histories for local memories), with the generator's own call-by-substitution interpreter; placed entities compared as a multiset.",
+            "SMT translation validation against a substitution-semantics reference"),
+    "C16": ("translation_validation", "E1 bp2smt",
+            "The blueprint of a program with for loops is compared, for all inputs, with the generator's own unrolling (mathematical range definition); placed entities compared as a multiset.",
+            "SMT translation validation against an unrolling reference"),
+    "C20": ("translation_validation", "E1 bp2smt + closed clauses",
+            "At the anchor labelled with each unconsumed top-level name z3 decides that the result's own signal (every signal for bundles) equals the reference for all inputs; closed clauses: exactly one wired empty anchor per unconsumed name, none for consumed names, producer labelled with name and source line, inputs labelled with name and value.",
+            "SMT translation validation keyed by every unconsumed name + closed label clauses"),
 }
 
 NOT_APPLICABLE = {
